@@ -115,3 +115,16 @@ func SelectionSetToFields(selectionSet ast.SelectionSet, parentDef *ast.Definiti
 
 	return result
 }
+
+// SelectionSetToFragmentDirectives returns directives of inline fragments of selection set,
+// fragments inside fragments included
+func SelectionSetToFragmentDirectives(selectionSet ast.SelectionSet) ast.DirectiveList {
+	var result ast.DirectiveList
+	for _, s := range selectionSet {
+		if frag, ok := s.(*ast.InlineFragment); ok {
+			result = append(result, frag.Directives...)
+			result = append(result, SelectionSetToFragmentDirectives(frag.SelectionSet)...)
+		}
+	}
+	return result
+}
